@@ -315,8 +315,8 @@ def execute(trace):
                             input_has_inverted_attribute=_has_inverted_attribute(texts, model, spec),
                             first_has_normalisable_role=_has_normalisable_role(r.stdout, spec),
                             **detail)
-            if trace.get('pipeline') and r3.exc is None:
-                pipeline_mode(trace, spec, opts, stdin, texts, r, res, detail)
+            if trace.get('pipeline') and r3.exc is None and r3.exit == 0:
+                pipeline_mode(trace, spec, opts, stdin, texts, r3, res, detail)
     if trace.get('subprocess') and rexc is None and not uses_random(opts):
         subprocess_crosscheck(spec, argv, texts, stdin, r, res)
     for name, n in k.c.items():
@@ -458,7 +458,8 @@ def subprocess_crosscheck(spec, argv, texts, stdin, r, res):
 
 
 def pipeline_mode(trace, spec, opts, stdin, texts, r, res, detail):
-    """penman OPTS < input | penman OPTS : two concurrent tool instances, bounded pipe."""
+    """penman OPTS < input | penman OPTS : two concurrent tool instances, bounded pipe.  Must give
+    exactly what the sequential composition (second pass *r*) gave."""
     try:
         from ..seams import pipeline
     except ImportError:
